@@ -16,12 +16,24 @@ where
     let mut nodes = Vec::new();
     let mut edges = Vec::new();
 
+    // Every undirected edge is listed by both of its endpoints (a self-loop
+    // twice by its own node); it must be written once.
+    let mut done: std::collections::HashSet<&K> = std::collections::HashSet::new();
+
     for (_, n) in g.iter() {
         nodes.push((n.key().clone(), n.value().clone()));
 
+        let mut loops = Vec::new();
         for Edge(u, v, e) in n.iter() {
-            edges.push((u.key().clone(), v.key().clone(), e));
+            if u == v {
+                loops.push((u.key().clone(), v.key().clone(), e));
+            } else if !done.contains(v.key()) {
+                edges.push((u.key().clone(), v.key().clone(), e));
+            }
         }
+        let half = loops.len() / 2;
+        edges.extend(loops.into_iter().take(half));
+        done.insert(n.key());
     }
 
     (nodes, edges)
